@@ -292,6 +292,9 @@ fn spawn_async_ao_list_in_task<'a, SE: extensions::ShellExtensions>(
     }
 
     let join_handle = tokio::spawn(async move {
+        #[cfg(feature = "verif-hooks")]
+        crate::verif_hooks::pause("job_task_start");
+
         cloned_ao_list
             .execute(&mut cloned_shell, &cloned_params)
             .await
@@ -384,6 +387,9 @@ impl Execute for ast::Pipeline {
         // Spawn all the processes required for the pipeline, connecting outputs/inputs with pipes
         // as needed.
         let spawn_results = spawn_pipeline_processes(self, shell, &params).await?;
+
+        #[cfg(feature = "verif-hooks")]
+        crate::verif_hooks::pause("pipeline_before_wait");
 
         // Wait for the processes. This also has a side effect of updating pipeline status.
         let mut result =
@@ -527,6 +533,9 @@ async fn spawn_pipeline_processes(
         }
 
         spawn_results.push_back(spawn_result);
+
+        #[cfg(feature = "verif-hooks")]
+        crate::verif_hooks::pause_indexed("pipeline_stage_spawned", current_pipeline_index);
     }
 
     Ok(spawn_results)
